@@ -5,7 +5,8 @@ from sa.paths_check import check_annotate_paths
 EXPLANATION = ("static analysis: annotate_paths is interpreted abstractly on three generic paths whose hop count, duration "
                "and arrival time are symbols; all 13^3 combinations of orderings (ties included) and all 6 input orders are "
                "enumerated (two paths plus the literal 0 when the code tests a value for truth); the five answers must be "
-               "exactly the argmin sets, elements of the input; path_length / path_duration are matched structurally")
+               "exactly the argmin sets, elements of the input; path_length / path_duration are matched structurally"
+               ";  path_length / path_duration are interpreted on concrete hop sequences (list and tuple form, a self-loop hop, a single hop); closures bind late as in Python; no state shared between calls (P7)")
 
 
 def run(repo: Repo, tier, rep: Report):
